@@ -16,6 +16,8 @@ mod corr_geom;
 mod corr_eval;
 mod corr_decision;
 mod corr_reduce;
+mod corr_lineage;
+mod corr_deadline;
 mod e2e;
 mod pngparse;
 
@@ -105,6 +107,8 @@ fn main() {
         "outputs" => corr_eval::outputs(&mut ctx),
         "corr-decision" => corr_decision::corr(&mut ctx),
         "corr-reduce" => corr_reduce::corr(&mut ctx),
+        "corr-lineage" => corr_lineage::corr(&mut ctx),
+        "corr-deadline" => corr_deadline::corr(&mut ctx),
         "oracle-files" => corr_decision::oracle_files(&mut ctx),
         _ => {
             eprintln!("unknown stream {cmd}");
